@@ -1,0 +1,20 @@
+//go:build verif
+
+package coordinator
+
+import (
+	"time"
+
+	"github.com/openGemini/openGemini/lib/netstorage"
+	meta2 "github.com/openGemini/openGemini/lib/util/lifted/influx/meta"
+)
+
+// VerifC05WriteRowToShard lets the C05 verification harness call the coordinator's per-shard write/retry loop
+// (PointsWriter.writeRowToShard) with its own meta client and store transport. Thin wrapper, no behaviour.
+func VerifC05WriteRowToShard(mc PWMetaClient, store TSDBStore, timeout time.Duration, owners []uint32, database, rp string) error {
+	pw := NewPointsWriter(timeout)
+	pw.MetaClient = mc
+	pw.TSDBStore = store
+	ctx := &netstorage.WriteContext{Shard: &meta2.ShardInfo{ID: 1, Owners: owners}}
+	return pw.writeRowToShard(ctx, database, rp)
+}
